@@ -321,3 +321,142 @@ Proof. exact (proj1 (proj2 FloatExamples.ex_py_sum)). Qed.
 Example C04_reconcile_witness_exact :
   comp_exact rnd64 FloatExamples.d01 0 [FloatExamples.d02; FloatExamples.d03].
 Proof. exact FloatExamples.ex_py_sum_comp_exact. Qed.
+
+(* ====================================================================== *)
+(* Simulator level: C04 in every state and every tick of a whole run       *)
+(* ====================================================================== *)
+(* [sim_reach C a 0 (init_sim C np cpu ram) t s]: [s] is the simulator state after [t] ticks of some run of
+   the shipped scheduler [a] (naive, starter, overbook, priority, priority-pool) from the initial state, for
+   any arrivals; every state [sim_run] passes through is one (C04_sim_run_ticks below). Every simulator tick
+   is one executor step with the scheduler's commands (Proofs/SimReachFacts.v, [sim_tick_exec_step]);
+   Proofs/SimCorollaryFacts.v opens it into the ticks of the pools. *)
+From Eudoxia Require Import Model.Sched Model.Simulator Proofs.PriorityPoolRunFacts Proofs.SimCorollaryFacts.
+
+(* [exact] the invariants behind the per-tick theorems, and C04 in the words of the property, in every state *)
+Theorem C04_sim_pool_invariants : forall C a np cpu ram,
+  (forall x, (cf_rnd C x == x)%Q) -> script_nonneg C -> (0 <= ram)%Q ->
+  forall t s, sim_reach C a 0%Z (init_sim C np cpu ram) t s ->
+  Forall (pool_inv C (e_next (sm_exec s))) (e_pools (sm_exec s)).
+Proof. exact SimCorollaryFacts.sim_pool_inv. Qed.
+Print Assumptions C04_sim_pool_invariants.
+
+Theorem C04_sim_invariants : forall C a np cpu ram,
+  (forall x, (cf_rnd C x == x)%Q) -> script_nonneg C -> (0 <= ram)%Q ->
+  forall t s, sim_reach C a 0%Z (init_sim C np cpu ram) t s ->
+  forall p, In p (e_pools (sm_exec s)) ->
+    (forall c, In c (p_active p) -> c_completed c = false /\ (c_mem c <= c_ram c)%Q) /\
+    (p_consumed p <= p_max_ram p)%Q /\
+    (p_consumed p == sumQ (map c_mem (p_active p)))%Q /\
+    (p_active p = [] -> (p_consumed p == 0)%Q).
+Proof. exact SimCorollaryFacts.C04_sim_invariants. Qed.
+Print Assumptions C04_sim_invariants.
+
+(* ... in particular in the state [sim_run] ends in (normally, or at the tick that raised) *)
+Theorem C04_sim_run_invariants : forall C a np cpu ram,
+  (forall x, (cf_rnd C x == x)%Q) -> script_nonneg C -> (0 <= ram)%Q ->
+  forall arrivals sf logs oe,
+  sim_run C a 0%Z (init_sim C np cpu ram) arrivals = (sf, logs, oe) ->
+  Forall (pool_inv C (e_next (sm_exec sf))) (e_pools (sm_exec sf)) /\
+  forall p, In p (e_pools (sm_exec sf)) ->
+    (forall c, In c (p_active p) -> c_completed c = false /\ (c_mem c <= c_ram c)%Q) /\
+    (p_consumed p <= p_max_ram p)%Q /\
+    (p_consumed p == sumQ (map c_mem (p_active p)))%Q /\
+    (p_active p = [] -> (p_consumed p == 0)%Q).
+Proof. exact SimCorollaryFacts.C04_sim_run_invariants. Qed.
+Print Assumptions C04_sim_run_invariants.
+
+(* [any rnd] within the allocation, in every state of every run *)
+Theorem C04_sim_within_alloc : forall C a np cpu ram t s,
+  sim_reach C a 0%Z (init_sim C np cpu ram) t s ->
+  forall p, In p (e_pools (sm_exec s)) ->
+  forall c, In c (p_active p) -> (c_mem c <= c_ram c)%Q /\ c_completed c = false.
+Proof. exact SimCorollaryFacts.C04_sim_within_alloc. Qed.
+Print Assumptions C04_sim_within_alloc.
+
+(* the ticks of a run: the i-th log entry of [sim_run] is the log of [sim_tick] from a state the run passes
+   through, so the per-tick theorems below speak about every tick of every run *)
+Theorem C04_sim_run_ticks : forall C a arrivals t0 s0 sf logs oe,
+  sim_run C a t0 s0 arrivals = (sf, logs, oe) ->
+  forall i lg, nth_error logs i = Some lg ->
+  exists s s' newp,
+    nth_error arrivals i = Some newp /\
+    sim_reach C a t0 s0 (t0 + Z.of_nat i)%Z s /\
+    sim_tick C a (t0 + Z.of_nat i)%Z s newp = Ok (s', lg) /\
+    sim_reach C a t0 s0 (t0 + Z.of_nat i + 1)%Z s'.
+Proof. exact SimCorollaryFacts.sim_run_log_tick. Qed.
+Print Assumptions C04_sim_run_ticks.
+
+(* [exact] every OOM failure reported in any tick of any run is justified. The failed result [r] comes from
+   the tick of one pool [p] (position [i]; [p'] afterwards); with the vocabulary of C04_kill_justified
+   ([act4]: the pool's containers as they enter the killer, [act1] / [cons1]: after the own-limit kills,
+   [vs]: the victims of the pool-level loop in kill order): the usage figures are the exact sums, the
+   pool-level loop ran only if the usage exceeded the pool AND RAM overcommit is on, and the failed container
+   [c] was above its own allocation, or (overcommit) was killed while the usage that remained after the
+   earlier victims still exceeded the pool *)
+Theorem C04_sim_kill_justified : forall C a np cpu ram,
+  (forall x, (cf_rnd C x == x)%Q) -> script_nonneg C -> (0 <= ram)%Q ->
+  forall t s newp s' lg,
+  sim_reach C a 0%Z (init_sim C np cpu ram) t s ->
+  sim_tick C a t s newp = Ok (s', lg) ->
+  forall r, In r (tl_results lg) -> r_err r = true ->
+  exists i p p' w next ss asgs w' next' res,
+    nth_error (e_pools (sm_exec s)) i = Some p /\ nth_error (e_pools (sm_exec s')) i = Some p' /\
+    pool_tick C w next p ss asgs = Ok (w', next', p', res) /\ In r res /\
+    exists act2 w3 cons3 w4 cons4 act4 w1 cons1 act1 cons5 act5 vs,
+      tick_active C w3 cons3 act2 = Ok (w4, cons4, act4) /\
+      oom_killer C (p_max_ram p) w4 cons4 act4 = Ok (w', cons5, act5) /\
+      res = map (result_of (p_id p)) (filter c_completed act5) /\
+      kill_over_limit C w4 cons4 act4 = Ok (w1, cons1, act1) /\
+      act1 = map (kill_when over_limit) act4 /\
+      (cons4 == sumQ (map c_mem act4))%Q /\ (cons1 == sumQ (map c_mem act1))%Q /\
+      (vs <> [] -> (p_max_ram p < cons1)%Q /\ cf_overcommit C = true) /\
+      Forall (fun v => In v act4 /\ c_completed v = false /\
+                       (c_mem v <= c_ram v)%Q /\ (0 < c_mem v)%Q) vs /\
+      exists c, In c act4 /\ c_completed c = false /\ r = result_of (p_id p) (dead c) /\
+        ((c_ram c < c_mem c)%Q
+         \/
+         cf_overcommit C = true /\
+         exists j, nth_error vs j = Some c /\
+                   (p_max_ram p < cons1 - sumQ (map c_mem (firstn j vs)))%Q).
+Proof. exact SimCorollaryFacts.C04_sim_kill_justified. Qed.
+Print Assumptions C04_sim_kill_justified.
+
+(* ... in short, without RAM overcommit every failure of every run is a container above its own allocation *)
+Theorem C04_sim_kill_own_limit_without_overcommit : forall C a np cpu ram,
+  (forall x, (cf_rnd C x == x)%Q) -> script_nonneg C -> (0 <= ram)%Q ->
+  forall t s newp s' lg,
+  sim_reach C a 0%Z (init_sim C np cpu ram) t s ->
+  sim_tick C a t s newp = Ok (s', lg) ->
+  cf_overcommit C = false ->
+  forall r, In r (tl_results lg) -> r_err r = true ->
+  exists c, r = result_of (r_pool r) (dead c) /\ c_completed c = false /\ (c_ram c < c_mem c)%Q.
+Proof. exact SimCorollaryFacts.C04_sim_kill_own_limit_or_overcommit. Qed.
+Print Assumptions C04_sim_kill_own_limit_without_overcommit.
+
+(* non-vacuity: overbook with RAM overcommit, two one-operator pipelines of 6 GB each on one pool of 10 GB:
+   both containers get 10 GB in tick 0, both are within their allocation, container 0 is killed by the
+   pool-level loop; the hypotheses of the theorems hold, a failed result exists, and the state after the tick
+   satisfies the invariants (usage 6 GB = the one running container) *)
+Example C04_sim_witness :
+  (forall x, (cf_rnd SimCorExamples.Ck x == x)%Q) /\ script_nonneg SimCorExamples.Ck /\
+  sim_reach SimCorExamples.Ck AOverbook 0%Z (init_sim SimCorExamples.Ck 1 10%Z 10%Q) 0%Z SimCorExamples.k0 /\
+  sim_tick SimCorExamples.Ck AOverbook 0%Z SimCorExamples.k0 [0%nat; 1%nat]
+    = Ok (SimCorExamples.k1, SimCorExamples.klg0) /\
+  (exists r, In r (tl_results SimCorExamples.klg0) /\ r_err r = true) /\
+  map (fun r => (r_cid r, r_err r, Qred (r_ram r))) (tl_results SimCorExamples.klg0) = [(0%nat, true, 10%Q)] /\
+  map (fun p => map (fun c => (c_id c, Qred (c_mem c), Qred (c_ram c))) (p_active p))
+      (e_pools (sm_exec SimCorExamples.k1)) = [[(1%nat, 6%Q, 10%Q)]] /\
+  forall p, In p (e_pools (sm_exec SimCorExamples.k1)) ->
+    (p_consumed p <= p_max_ram p)%Q /\ (p_consumed p == sumQ (map c_mem (p_active p)))%Q.
+Proof.
+  split; [exact SimCorExamples.Ck_exact|]. split; [exact SimCorExamples.Ck_nonneg|].
+  split; [exact SimCorExamples.k_reach0|]. split; [exact SimCorExamples.k_tick0|].
+  split; [exact SimCorExamples.k_failure|].
+  split; [exact (proj1 (proj2 SimCorExamples.k_facts))|].
+  split; [exact (proj1 (proj2 (proj2 SimCorExamples.k_facts)))|].
+  intros p Hp.
+  destruct (C04_sim_invariants SimCorExamples.Ck AOverbook 1%nat 10%Z 10%Q SimCorExamples.Ck_exact
+              SimCorExamples.Ck_nonneg ltac:(discriminate) 1%Z SimCorExamples.k1 SimCorExamples.k_reach1 p Hp)
+    as (_ & A & B & _).
+  split; assumption.
+Qed.
